@@ -467,7 +467,9 @@ theorem views_fill_slot (F : Facts14) (c : Cfg) (inner : Bool) (sl : Slot) :
   · split
     · exact views_fires_prot _ (Or.inl rfl) _
     · exact ⟨rfl, rfl, rfl⟩
-  · exact views_fires_prot _ (Or.inr rfl) _
+  · split
+    · exact ⟨rfl, rfl, rfl⟩
+    · exact views_fires_prot _ (Or.inr rfl) _
   · exact views_fires_prot _ (Or.inr rfl) _
   · split
     · exact views_fires_prot _ (Or.inr rfl) _
@@ -507,7 +509,7 @@ theorem run_row (F : Facts14) (htable : allRows.all (rowOk F) = true)
       final (methodView r.steps) = .done tr.userRan tr.returned tr.faulted ∧
       transportOk c.transport r.steps tr.faulted = true) := by
   have h := row_of_table F htable
-    ⟨F.leavesNone c.outp (effShape c inj), F.leavesNoneFault c.outp, c.transport, inj.stage, inj.kind, co, ro⟩
+    ⟨!c.presetDoc && F.leavesNone c.outp (effShape c inj), F.leavesNoneFault c.outp, c.transport, inj.stage, inj.kind, co, ro⟩
   obtain ⟨v1, v2, v3⟩ := views_fill F c inj.inner (skelOf F c inj co ro).steps
   have hP : F.proc c.sig = F.proc .single := funext (hsig c.sig)
   obtain ⟨st, k, b⟩ := inj
